@@ -265,7 +265,7 @@ def run_case(case: dict, driver):
         try:
             storeB.load_state(path)
         except Exception as e:
-            load_out = "err " + pc.canon_exc(e)
+            load_out = "err " + pc.canon_load_exc(e, tmp)
         sfx = fake.suffix(now)
         fake.end_op()
         lines.append(f"persist load root=states/{STATE_NAME} tol={1 if tol else 0} tp=err {sfx}")
@@ -571,7 +571,7 @@ def suite_random(ctx: Ctx) -> SuiteResult:
                            "markers, clock histories before save and before load, save while the real "
                            "clock advances, load into other capacities (40%), tolerant leaves (30%); "
                            "non-trivial and distinct as in the small suite")
-    n = ctx.n(450, 12000)
+    n = ctx.n(1500, 40000)
     run_many(ctx, res, (gen_case(ctx.rng, big=(i % 3 == 0)) for i in range(n)))
     return res
 
@@ -604,7 +604,7 @@ def suite_malformed(ctx: Ctx) -> SuiteResult:
         try:
             store.load_state(tmp / "states" / "nothing.state")
         except Exception as e:
-            out = "err " + pc.canon_exc(e)
+            out = "err " + pc.canon_load_exc(e, tmp).replace("@?", "@states/nothing.state")
         res.evaluations += 1
         res.hit("missing-path:" + out)
         if ctx.driver is not None:
@@ -613,7 +613,7 @@ def suite_malformed(ctx: Ctx) -> SuiteResult:
             if r != out:
                 res.disagreements.append(Disagreement("persist-malformed", f"missing path: implementation "
                                                       f"{out}, model {r}", "missing-path"))
-        if out != "err FileNotFoundError":
+        if not out.startswith("err FileNotFoundError"):
             res.violations.append(Violation("load:missing-path-accepted",
                                             f"load_state of a missing directory: {out}", "missing-path"))
     finally:
